@@ -83,6 +83,23 @@ def build_native():
     return time.time() - t0
 
 
+SCRUT_TARGET = os.path.join(CACHE, "scrut-target")
+SCRUT_BIN = os.path.join(SCRUT_TARGET, "debug", "scrut")
+
+
+def build_scrut_bin():
+    """(re)build the real `scrut` binary from /repo's current working tree (default features, no hooks)"""
+    os.makedirs(CACHE, exist_ok=True)
+    t0 = time.time()
+    r = subprocess.run(["cargo", "build", "--offline", "--quiet", "--bin", "scrut"], cwd=REPO,
+                       env=env_offline({"CARGO_TARGET_DIR": SCRUT_TARGET, "RUSTFLAGS": "-A warnings"}),
+                       stdout=subprocess.PIPE, stderr=subprocess.STDOUT, text=True)
+    if r.returncode != 0:
+        log(r.stdout[-4000:])
+        raise BuildError("build of the scrut binary failed")
+    return time.time() - t0
+
+
 class BuildError(Exception):
     pass
 
